@@ -12,7 +12,10 @@ PROFILES = {
     "fol": {"task": 3, "taskc": 5, "fol": 6, "optc": 3},
     "resc": {"task": 4, "worker": 2, "cumulative": 1, "select": 2, "require": 7, "resc": 6},
     "buffer": {"task": 5, "buffer": 2, "bufc": 6, "taskc": 2},
-    "all": {"task": 5, "worker": 2, "cumulative": 1, "select": 2, "require": 6, "taskc": 5, "fol": 3,
+    "ind": {"task": 5, "worker": 2, "cumulative": 1, "select": 1, "require": 6, "buffer": 1, "bufc": 2, "ind": 7,
+            "indc": 2},
+    "obj": {"task": 5, "worker": 2, "require": 5, "taskc": 3, "ind": 2, "obj": 3, "buffer": 1, "bufc": 2},
+    "all": {"ind": 2, "indc": 1, "task": 5, "worker": 2, "cumulative": 1, "select": 2, "require": 6, "taskc": 5, "fol": 3,
             "optc": 1, "resc": 4, "buffer": 1, "bufc": 3},
 }
 
@@ -346,6 +349,70 @@ class Gen:
             return self.g_task()
         self.emit({"op": "constraint", "c": ("loadBuffer" if load else "unloadBuffer", rng.choice(free), bn,
                                              rng.choice([1, 1, 2, 3, 5]))})
+
+    def g_ind(self):
+        rng = self.rng
+        ts = self.tasks()
+        with_due = [t for t in ts if self.real.tasks[t].due_date is not None]
+        res = self.plain_workers() + list(self.real.cumuls)
+        forms = []
+        if ts:
+            def nonlit():
+                t = self.raw_term()
+                return ("+", ("tstart", ts[0]), t) if isinstance(t, int) else t
+            forms.append(lambda: ("expr", f"user{len(self.real.problem.indicators)}", nonlit(),
+                                  rng.choice([None, None, (0, 9), (0, 100)])))
+        if res:
+            r = rng.choice(res)
+            forms += [lambda: ("utilization", r), lambda: ("nbTasksAssigned", r), lambda: ("idle", r),
+                      lambda: ("resourceCost", rng.sample(res, rng.randint(1, min(3, len(res)))))]
+        if with_due:
+            sub = rng.choice([None, rng.sample(with_due, rng.randint(1, len(with_due)))])
+            if sub is None and len(with_due) != len(ts):
+                sub = with_due
+            forms += [lambda: ("tardiness", sub), lambda: ("earliness", sub), lambda: ("nbTardy", sub),
+                      lambda: ("maxLateness", sub)]
+        if self.real.buffers:
+            b = rng.choice(list(self.real.buffers))
+            forms += [lambda: ("maxBuffer", b), lambda: ("minBuffer", b)]
+        if not forms:
+            return self.g_task()
+        self.emit({"op": "indicator", "i": rng.choice(forms)()})
+
+    def g_indc(self):
+        rng = self.rng
+        n = len(self.real.problem.indicators)
+        if not n:
+            return self.g_ind()
+        i = rng.randrange(n)
+        if rng.random() < 0.5:
+            c = ("indicatorTarget", i, rng.choice([0, 1, 3, 10]))
+        else:
+            lo = rng.choice([None, 0, 1])
+            hi = rng.choice([None, 5, 50])
+            if lo is None and hi is None and rng.random() > self.invalid_p * 3:
+                hi = 20
+            c = ("indicatorBounds", i, lo, hi)
+        self.emit({"op": "constraint", "c": c})
+
+    def g_obj(self):
+        rng = self.rng
+        ts = self.tasks()
+        n = len(self.real.problem.indicators)
+        res = self.plain_workers() + list(self.real.cumuls)
+        forms = [lambda: ("makespan",), lambda: ("flowtime", rng.choice([None, ts[:2] or None])), lambda: ("priorities",),
+                 lambda: ("startLatest", rng.choice([None, ts[:2] or None])), lambda: ("startEarliest",),
+                 lambda: ("greatestStart", rng.choice([None, ts[:2] or None]))]
+        if n:
+            forms += [lambda: ("maximizeIndicator", rng.randrange(n), rng.choice([1, 1, 2, 3])),
+                      lambda: ("minimizeIndicator", rng.randrange(n), rng.choice([1, 1, 2, 5]))] * 2
+        if res:
+            forms += [lambda: ("resourceUtilization", rng.choice(res)),
+                      lambda: ("resourceCost", rng.sample(res, rng.randint(1, min(2, len(res)))))]
+        if self.real.buffers:
+            b = rng.choice(list(self.real.buffers))
+            forms += [lambda: ("maximizeMaxBuffer", b), lambda: ("minimizeMaxBuffer", b)]
+        self.emit({"op": "objective", "o": rng.choice(forms)()})
 
     # ------------------------------------------------------------------ driver
     def run(self):
